@@ -35,8 +35,24 @@ def seed():
         return 1
 
 
+def load_scale():
+    """how much slower than usual this machine currently is: timeouts are scaled so that a busy machine is not mistaken
+    for a hang (a real hang or livelock still runs into the scaled limit)"""
+    try:
+        l1 = os.getloadavg()[0]
+        n = os.cpu_count() or 1
+    except OSError:
+        return 1.0
+    return max(1.0, min(10.0, 1.5 * l1 / n))
+
+
+def scaled(timeout):
+    return int(timeout * load_scale()) + 1
+
+
 def sh(cmd, timeout=3600, cwd=None, input=None, env=None):
     t0 = time.time()
+    timeout = scaled(timeout)
     try:
         p = subprocess.run(cmd, shell=isinstance(cmd, str), cwd=cwd, input=input, env=env,
                            stdout=subprocess.PIPE, stderr=subprocess.STDOUT, timeout=timeout,
@@ -255,17 +271,27 @@ def build_harness(name, src, flags=(), compiler="g++", extra_deps=()):
     exe = os.path.join(bdir, "%s-%s" % (name, key))
     if os.path.exists(exe):
         return True, exe, ""
+    # stale binaries of this harness (same name, other content hash): removed only when old enough that no check that is
+    # still running can be using them
+    import re
     for old in os.listdir(bdir):
-        if old.startswith(name + "-"):
+        if re.fullmatch(re.escape(name) + r"-[0-9a-f]{16}", old):
+            fp = os.path.join(bdir, old)
             try:
-                os.remove(os.path.join(bdir, old))
+                if time.time() - os.path.getmtime(fp) > 6 * 3600:
+                    os.remove(fp)
             except OSError:
                 pass
-    cmd = [compiler, "-std=c++17", "-I" + REPO, "-I" + os.path.join(VERIF, "harness"), "-D" + GUARD] + list(flags) + [srcp, "-o", exe + ".tmp", "-lpthread"]
+    tmp = "%s.tmp%d" % (exe, os.getpid())
+    cmd = [compiler, "-std=c++17", "-I" + REPO, "-I" + os.path.join(VERIF, "harness"), "-D" + GUARD] + list(flags) + [srcp, "-o", tmp, "-lpthread"]
     rc, out, _ = sh(cmd, timeout=1200)
     if rc != 0:
+        try:
+            os.remove(tmp)
+        except OSError:
+            pass
         return False, None, out[-4000:]
-    os.replace(exe + ".tmp", exe)
+    os.replace(tmp, exe)
     return True, exe, out[-500:]
 
 
